@@ -58,11 +58,57 @@ def f64_display(ex, v, opts=None):
     if opts and 'precision' in opts: raise Unsupported('precision formatting of symbolic f64')
     # canonical form of a short decimal: no leading zeros, no trailing fraction zeros (exact for <= 15 significant digits)
     ip = list(prov.ip); fp = list(prov.fp)
+    return ([45] if prov.neg else []) + ip + ([46] + fp if fp else [])
+
+
+def intern_decimal(ex, neg, ip, fp):
+    """symbolic f64 for the decimal text [-]ip[.fp] (<= 15 digits, no exponent).  The digits are normalised (leading
+    integer zeros and trailing fraction zeros stripped, forking), equal normal forms share one FP variable, and distinct
+    normal forms are distinct values (exact for <= 15 significant digits).  The defining arithmetic constraint
+    x = N / 10^k (one correctly rounded IEEE division) is added only when the value flows into float arithmetic."""
+    ip = [z3.simplify(d) if is_sym(d) else d for d in ip]; fp = [z3.simplify(d) if is_sym(d) else d for d in fp]
     while len(ip) > 1 and ex.branch(eq_scalar(ip[0], 48)): ip.pop(0)
     if not ip: ip = [48]
     while fp and ex.branch(eq_scalar(fp[-1], 48)): fp.pop()
-    out = ([45] if prov.neg else []) + ip + ([46] + fp if fp else [])
-    return out
+    key = (neg, tuple(d.get_id() if is_sym(d) else ('c', d) for d in ip), tuple(d.get_id() if is_sym(d) else ('c', d) for d in fp))
+    tab = ex.side.setdefault('float_intern', {})
+    hit = tab.get(key)
+    if hit is not None: return hit[0]
+    if all(not is_sym(d) for d in ip + fp):
+        v = float(('-' if neg else '') + bytes(ip).decode() + ('.' + bytes(fp).decode() if fp else ''))
+        tab[key] = (v, neg, ip, fp); return v
+    v = ex.fresh('pf', 'f64')
+    ex.solver.add(z3.Not(z3.fpIsNaN(v)), z3.Not(z3.fpIsInf(v)))
+    ex.solver.add(z3.fpIsNegative(v) if neg else z3.Not(z3.fpIsNegative(v)))
+    allz = zand([eq_scalar(d, 48) for d in ip + fp])
+    ex.solver.add(z3.fpIsZero(v) == (allz if is_sym(allz) else z3.BoolVal(bool(allz))))
+    # equal digits <=> equal value, against every other decimal of this path
+    for k2, (v2, neg2, ip2, fp2) in tab.items():
+        same_shape = neg2 == neg and len(ip2) == len(ip) and len(fp2) == len(fp)
+        f2 = v2 if is_sym(v2) else z3.FPVal(v2, F64)
+        if same_shape:
+            de = zand([eq_scalar(a, b) for a, b in zip(ip + fp, ip2 + fp2)])
+            ex.solver.add((v == f2) == (de if is_sym(de) else z3.BoolVal(bool(de))))
+        else:
+            bothz = z3.And(z3.fpIsZero(v), z3.fpIsZero(f2)) if neg2 == neg else z3.BoolVal(False)
+            ex.solver.add(z3.Or(v != f2, bothz))
+    tab[key] = (v, neg, ip, fp)
+    ex.float_defs[v.get_id()] = FloatText(neg, ip, fp)
+    ex.float_pending[v.get_id()] = (v, neg, ip, fp)
+    return v
+
+
+def materialize(ex, v):
+    """add the exact arithmetic definition of an interned decimal (called when it meets float arithmetic)"""
+    if not is_sym(v): return
+    p = ex.float_pending.pop(v.get_id(), None)
+    if p is None: return
+    _, neg, ip, fp = p
+    N = digits_value_bv(ip + fp)
+    x = z3.fpSignedToFP(RNE, N, F64)
+    if fp: x = z3.fpDiv(RNE, x, z3.FPVal(float(10 ** len(fp)), F64))
+    if neg: x = z3.fpNeg(x)
+    ex.solver.add(v == x)
 
 
 def digits_value_bv(digs, bits=64):
@@ -121,17 +167,7 @@ def parse_f64_bytes(ex, items):
     if i != n: return None
     nd = len(ip) + len(fp)
     if not has_exp and nd <= 15:
-        # N / 10^k is correctly rounded by one IEEE division (N < 2^53, 10^k exact for k <= 22)
-        N = digits_value_bv(ip + fp)
-        x = z3.fpSignedToFP(RNE, N, F64)
-        if fp: x = z3.fpDiv(RNE, x, z3.FPVal(float(10 ** len(fp)), F64))
-        if neg: x = z3.fpNeg(x)
-        v = ex.fresh('pf', 'f64')
-        ex.solver.add(z3.fpEQ(v, x) if not neg else v == x)
-        # (== keeps the sign of zero: "-0" parses to -0.0)
-        if not neg: ex.solver.add(z3.Not(z3.fpIsNegative(v)))
-        ex.float_defs[v.get_id()] = FloatText(neg, ip or [48], fp)
-        return v
+        return intern_decimal(ex, neg, ip, fp)
     if has_exp and nd <= 15 and len(ex_d) <= 2 and any(is_sym(d) for d in ex_d):
         # the exponent decides the magnitude: fork over its digit values (at most 100 ways)
         ex_d = [d if not is_sym(d) else 48 + ex.choose([d == 48 + k for k in range(10)]) for d in ex_d]
